@@ -14,6 +14,7 @@ import (
 	"sync"
 	"sync/atomic"
 	"time"
+	"unicode/utf8"
 
 	"golang.org/x/net/context"
 
@@ -106,6 +107,11 @@ type DeleteTableRange struct {
 func (dtr DeleteTableRange) CheckValid() error {
 	if dtr.Table == "" {
 		return errors.New("delete range must have table name")
+	}
+	if !utf8.ValidString(dtr.Table) {
+		// the request is proposed as json, which will replace the invalid bytes
+		// and so the range of another table would be deleted
+		return errors.New("delete range table name must be valid utf8")
 	}
 	if len(dtr.StartFrom) == 0 && len(dtr.EndTo) == 0 {
 		if !dtr.DeleteAll {
